@@ -13,13 +13,13 @@ import sexp
 from sexp import Sym
 
 
-def run_pty(query, schedule, rows, cols, mode=None, binary=None, timeout=20, checkpoints=()):
+def run_pty(query, schedule, rows, cols, mode=None, binary=None, timeout=20, checkpoints=(), stderr_to_pty=False):
     """schedule: list of (bytes, seconds_to_sleep_after).  checkpoints: indices into schedule after which
     (i.e. after the sleep) the bytes captured so far are recorded.  Returns dict(out=bytes, snaps=[bytes], rc, err)."""
     master, slave = pty.openpty()
     fcntl.ioctl(slave, termios.TIOCSWINSZ, struct.pack('HHHH', rows, cols, 0, 0))
     args = [binary or aglib.AGRIND, query] + (['-o', mode] if mode else [])
-    p = subprocess.Popen(args, stdin=subprocess.PIPE, stdout=slave, stderr=subprocess.PIPE, env=aglib.ENV, close_fds=True)
+    p = subprocess.Popen(args, stdin=subprocess.PIPE, stdout=slave, stderr=slave if stderr_to_pty else subprocess.PIPE, env=aglib.ENV, close_fds=True)
     os.close(slave)
     buf = bytearray()
     lock = threading.Lock()
@@ -59,7 +59,7 @@ def run_pty(query, schedule, rows, cols, mode=None, binary=None, timeout=20, che
         except subprocess.TimeoutExpired:
             p.kill()
             rc = None
-        err = p.stderr.read()
+        err = p.stderr.read() if p.stderr is not None else b''
         t.join(timeout=2)
     finally:
         try:
